@@ -150,7 +150,7 @@ func blockKinds(bs []Block, set map[string]bool) {
 }
 
 func TestConstructed(t *testing.T) {
-	kit.Rapid(t, "constructed", 80000, 1500000, func(t *rapid.T) {
+	kit.Rapid(t, "constructed", 80000, 6000000, func(t *rapid.T) {
 		r := rsrc{t}
 		g := &G{s: r}
 		d := g.doc()
